@@ -6,7 +6,7 @@
                         each sleep(q) as the delay the device makes of it (fade: (unsigned long)(q + 0.5f), blink: truncation)
    Only statements here; proofs are in Proofs/DRGBP.v. *)
 From Coq Require Import ZArith QArith Qabs List Bool.
-From RV Require Import Base.Wire Base.Num Host.Led Host.RGBLed Device.Signal Device.DLed Device.DRGB Proofs.DRGBP.
+From RV Require Import Base.Wire Base.Num Host.Led Host.RGBLed Device.Signal Device.DLed Device.DRGB Proofs.DRGBP Proofs.DRGBSimP.
 Import ListNotations.
 Import Num.
 
@@ -46,10 +46,9 @@ Theorem C04_rgb_fade_rounding_witness :
 Proof. exact rgb_fade_half_values. Qed.
 Print Assumptions C04_rgb_fade_rounding_witness.
 
-(* C04_rgb_partial (what is proved of device = host for the RGB LED): for every history of set_color / on / off
-   commands with int components 0..255 the firmware's analogWrite trace IS the host's level trace, hence the same
-   canonical signal, and no host call raises.  fade and blink are covered by the correspondence and the oracle
-   (and by the clamp theorems above), not by a simulation theorem: see the evidence. *)
+(* for every history of set_color / on / off commands with int components 0..255 the firmware's analogWrite trace IS the
+   host's level trace, hence the same canonical signal, and no host call raises (a corollary of C04_rgb_partial below,
+   kept because its guard is simpler) *)
 Theorem C04_rgb_set_partial : forall p ops, forallb set_only ops = true ->
   canon (drtr p drinit ops) = canon (fst (hrrun p (black p) ops)) /\ snd (hrrun p (black p) ops) = true.
 Proof. exact rgb_set_canon. Qed.
@@ -60,3 +59,25 @@ Example C04_rgb_set_guard_inhabited :
   length (fst (canon (drtr (9, 10, 11)%Z drinit [On (PI 255) (PI 0) (PB true); SetColor (PI 1) (PI 128) (PI 254); Off]))) = 8%nat.
 Proof. vm_compute. split; reflexivity. Qed.
 Print Assumptions C04_rgb_set_guard_inhabited.
+
+(* C04_rgb_partial: device = host for ALL RGB commands (set_color, on, off, fade, blink) and all histories inside the guard
+   rgb_guard: int components 0..255; fade: duration >= 0 and whole, steps a positive int, and NO interpolation step lands
+   exactly on a half in any channel (tie_free3, evaluated on the colour the fade starts from - the refutation above shows this
+   conjunct is needed); blink: times a positive int, delay >= 0.  Then the firmware's per-pin level signal with whole-millisecond
+   time stamps equals the host's (each fade sleep q rounded as the device does, (unsigned long)(q + 0.5f); each blink sleep
+   truncated; C04_rgb_delay_within_1ms bounds both by 1 ms), and no host call raises. *)
+Theorem C04_rgb_partial : forall p ops, rgb_guard (black p) ops = true ->
+  canon (drtr p drinit ops) = canon (fst (hrrun p (black p) ops)) /\ snd (hrrun p (black p) ops) = true.
+Proof. exact rgb_device_eq_host. Qed.
+Print Assumptions C04_rgb_partial.
+
+(* the rounding fact behind it: away from a tie the device's integer formula is the host's int(round(...)) *)
+Theorem C04_rgb_fade_value_partial : forall n s t i, (0 < n)%Z -> tie n s t i = false ->
+  interp (inject_Z n) s t i = c_interp n s t i.
+Proof. exact c_interp_eq_interp. Qed.
+Print Assumptions C04_rgb_fade_value_partial.
+
+Example C04_rgb_guard_inhabited : rgb_guard (black (9, 10, 11)%Z) rgb_demo_ops = true /\
+  length (fst (canon (drtr (9, 10, 11)%Z drinit rgb_demo_ops))) = 45%nat.
+Proof. exact rgb_demo_guard. Qed.
+Print Assumptions C04_rgb_guard_inhabited.
